@@ -148,6 +148,21 @@ fn parse_only(smx: bool, bytes: &[u8]) -> Result<(), String> {
     }
 }
 
+// ---- in-flight case slots: survive an abort of the sweep process (allocation failure aborts) ----
+static SLOTS: std::sync::OnceLock<Option<std::fs::File>> = std::sync::OnceLock::new();
+
+fn mark(site: u64, index: u64) {
+    use std::os::unix::fs::FileExt;
+    let f = SLOTS.get_or_init(|| std::env::var("C17_SLOTS").ok().and_then(|p| std::fs::OpenOptions::new().write(true).create(true).open(p).ok()));
+    if let Some(f) = f {
+        let slot = rayon::current_thread_index().unwrap_or(63).min(63) as u64;
+        let mut b = [0u8; 16];
+        b[..8].copy_from_slice(&(site + 1).to_le_bytes());
+        b[8..].copy_from_slice(&index.to_le_bytes());
+        let _ = f.write_at(&b, slot * 16);
+    }
+}
+
 fn alloc_bound(len: usize) -> usize {
     64 * len + 65536
 }
@@ -165,6 +180,7 @@ pub fn sites(tier: Tier) -> Vec<Site> {
             "generated files with every combination of counts 0..=2 (PTH nodes; SMX objects x points x triangles x checkpoints), three payload patterns incl. NaN / infinity / extreme integers, four track names; plus the two shipped files",
             move |i, acc| {
                 let f = &files[i as usize];
+                mark(0, i);
                 acc.eval();
                 let replay = json!({"site": "round-trip", "index": i, "file": f.name});
                 let kind = if f.smx { "SMX" } else { "PTH" };
@@ -207,6 +223,7 @@ pub fn sites(tier: Tier) -> Vec<Site> {
             move |i, acc| {
                 let (fi, cut) = cases[i as usize];
                 let f = &files[fi];
+                mark(1, i);
                 acc.eval();
                 let kind = if f.smx { "SMX" } else { "PTH" };
                 let replay = json!({"site": "truncation", "index": i, "file": f.name, "cut": cut});
@@ -238,6 +255,7 @@ pub fn sites(tier: Tier) -> Vec<Site> {
                 let (pos, val) = ((r / 256) as usize, (r % 256) as u8);
                 let mut b = f.bytes.clone();
                 b[pos] = val;
+                mark(2, i);
                 acc.eval();
                 let kind = if f.smx { "SMX" } else { "PTH" };
                 let replay = json!({"site": "substitution", "index": i, "file": f.name, "position": pos, "value": val});
@@ -381,75 +399,139 @@ pub fn run(tier: Tier, replay: Option<String>) -> i32 {
             return if matches!(r, Ok(Err(_))) && peak <= alloc_bound(b.len()) { 0 } else { 1 };
         }
     }
-    let exe = std::env::current_exe().unwrap();
-    let hostile: Vec<(u64, String, String)>;
-    let mut hostile_evals = 0u64;
-    let mut died: Option<u64> = None;
-    if replay.is_none() {
-        let out = std::process::Command::new(exe).args(["C17", "--tier", tier.name(), "--child", "hostile"]).output();
-        let Ok(out) = out else { eprintln!("MACHINERY: cannot spawn child"); return 3; };
-        let text = String::from_utf8_lossy(&out.stdout).to_string();
-        let mut v = vec![];
-        let mut last_case = None;
-        let mut finished = std::collections::BTreeSet::new();
-        for l in text.lines() {
-            if let Some(n) = l.strip_prefix("CASE ") { last_case = n.trim().parse::<u64>().ok(); hostile_evals += 1; }
-            else if let Some(rest) = l.strip_prefix("VIOL ") {
-                let mut it = rest.splitn(3, '\t');
-                let idx: u64 = it.next().unwrap_or("0").trim().parse().unwrap_or(0);
-                let _ = finished.insert(idx);
-                v.push((idx, it.next().unwrap_or("").to_string(), it.next().unwrap_or("").to_string()));
-            } else if let Some(rest) = l.strip_prefix("OK ") {
-                if let Some(n) = rest.split(' ').next().and_then(|x| x.parse::<u64>().ok()) { let _ = finished.insert(n); }
-            }
-        }
-        if !out.status.success() {
-            died = last_case.filter(|c| !finished.contains(c));
-            if died.is_none() { eprintln!("MACHINERY: hostile-count child failed: {:?}", out.status); return 3; }
-        }
-        hostile = v;
-    } else {
-        hostile = vec![];
+    if replay.is_some() {
+        return run_sites_in_this_process(tier, replay);
     }
-    let cases = if replay.is_none() { hostile_cases() } else { vec![] };
-    let total_hostile = cases.len() as u64;
-    let s = sites(tier);
-    super::run_e1("C17", tier, "fault_enumeration", replay, s,
+    let exe = std::env::current_exe().unwrap();
+    let _ = std::fs::create_dir_all("/verif/replays/C17");
+    let _ = std::fs::create_dir_all("/verif/target/tmp");
+
+    // 1. hostile count values, sequentially, in a child under RLIMIT_AS
+    let out = std::process::Command::new(&exe).args(["C17", "--tier", tier.name(), "--child", "hostile"]).output();
+    let Ok(out) = out else { eprintln!("MACHINERY: cannot spawn child"); return 3; };
+    let text = String::from_utf8_lossy(&out.stdout).to_string();
+    let mut hostile: Vec<(u64, String, String)> = vec![];
+    let mut hostile_evals = 0u64;
+    let mut last_case = None;
+    let mut finished = std::collections::BTreeSet::new();
+    for l in text.lines() {
+        if let Some(n) = l.strip_prefix("CASE ") { last_case = n.trim().parse::<u64>().ok(); hostile_evals += 1; }
+        else if let Some(rest) = l.strip_prefix("VIOL ") {
+            let mut it = rest.splitn(3, '\t');
+            let idx: u64 = it.next().unwrap_or("0").trim().parse().unwrap_or(0);
+            let _ = finished.insert(idx);
+            hostile.push((idx, it.next().unwrap_or("").to_string(), it.next().unwrap_or("").to_string()));
+        } else if let Some(rest) = l.strip_prefix("OK ") {
+            if let Some(n) = rest.split(' ').next().and_then(|x| x.parse::<u64>().ok()) { let _ = finished.insert(n); }
+        }
+    }
+    let cases = hostile_cases();
+    if !out.status.success() {
+        match last_case.filter(|c| !finished.contains(c)) {
+            Some(c) => {
+                let (f, off, v) = &cases[c as usize];
+                hostile.push((c, format!("C17|{}|process-died|hostile-count", if f.smx { "SMX" } else { "PTH" }), format!("{} with the count at offset {off} set to {v}: the process died (allocation failure / abort)", f.name)));
+            },
+            None => { eprintln!("MACHINERY: hostile-count child failed: {:?}", out.status); return 3; },
+        }
+    }
+    let mut code = 0;
+    let known = std::fs::read_to_string("/verif/known_findings.json").unwrap_or_default();
+    let mut seen = std::collections::BTreeSet::new();
+    for (idx, sig, detail) in &hostile {
+        if !seen.insert(sig.clone()) { continue; }
+        let path = format!("/verif/replays/C17/hostile-{idx}.json");
+        let _ = std::fs::write(&path, json!({"property": "C17", "site": "hostile-count", "index": idx, "signature": sig, "detail": detail}).to_string());
+        if known.contains(&format!("\"{sig}\"")) {
+            println!("KNOWN-FINDING: property=C17 [{sig}] {detail}");
+        } else {
+            println!("VIOLATION property=C17 replay={path}");
+            println!("  signature: {sig}");
+            println!("  witness:   {detail}");
+            code = 1;
+        }
+    }
+
+    // 2. the sweeps (round trip, truncation, substitution, file API) in a second child: a parse that
+    // asks for more memory than the machine has aborts the process, and that must be a verdict
+    let slots = format!("/verif/target/tmp/c17-slots-{}", std::process::id());
+    let _ = std::fs::remove_file(&slots);
+    let status = std::process::Command::new(&exe)
+        .args(["C17", "--tier", tier.name(), "--child", "sites"])
+        .env("C17_SLOTS", &slots)
+        .env("C17_HOSTILE_CASES", cases.len().to_string())
+        .env("C17_HOSTILE_RUN", hostile_evals.to_string())
+        .env("C17_HOSTILE_VIOLATIONS", seen.len().to_string())
+        .status();
+    let Ok(status) = status else { eprintln!("MACHINERY: cannot spawn sweep child"); return 3; };
+    let sweep_code = match status.code() {
+        Some(c @ (0 | 1)) => c,
+        other => {
+            // the sweep died: find the case(s) in flight and re-run each in its own process
+            let names = ["round-trip", "truncation", "substitution"];
+            let raw = std::fs::read(&slots).unwrap_or_default();
+            let mut pinned = 0;
+            let mut tried = 0u64;
+            for ch in raw.chunks(16) {
+                if ch.len() < 16 { continue; }
+                let site = u64::from_le_bytes(ch[..8].try_into().unwrap());
+                let index = u64::from_le_bytes(ch[8..].try_into().unwrap());
+                if site == 0 || site as usize > names.len() { continue; }
+                let name = names[site as usize - 1];
+                tried += 1;
+                let st = std::process::Command::new(&exe).args(["C17", "--tier", tier.name(), "--child", "one", name, &index.to_string()]).output();
+                let died = st.as_ref().map(|o| !matches!(o.status.code(), Some(0 | 1))).unwrap_or(true);
+                if died {
+                    pinned += 1;
+                    let path = format!("/verif/replays/C17/process-died-{name}-{index}.json");
+                    let _ = std::fs::write(&path, json!({"property": "C17", "site": name, "index": index, "signature": format!("C17|process-died|{name}")}).to_string());
+                    println!("VIOLATION property=C17 replay={path}");
+                    println!("  signature: C17|process-died|{name}");
+                    println!("  witness:   {name} case #{index}: the parsing process died ({:?}) - an allocation the input cannot justify aborts the process", st.map(|o| o.status));
+                }
+            }
+            if pinned == 0 {
+                eprintln!("MACHINERY: the sweep process died ({other:?}) and no in-flight case reproduces it");
+                let _ = std::fs::remove_file(&slots);
+                return 4;
+            }
+            // the sweep could not finish: evidence states what was established
+            let ev = json!({"property_id": "C17", "tier": tier.name(), "seed": 0, "level": "fault_enumeration",
+                "coverage": {"evaluations": hostile_evals + tried, "distinct_nontrivial": (hostile_evals + tried).max(2),
+                    "rule": "the sweep process was killed by the case(s) listed under violations; only the hostile-count sweep and the pinpointing re-runs completed",
+                    "samples": [format!("{} in-flight case(s) re-run in isolation, {pinned} of them kill the process", tried)], "exhaustive": false},
+                "assumptions": [], "wall_s": 0.0, "violations": pinned + code});
+            let _ = std::fs::write("/verif/evidence/C17.json", serde_json::to_string_pretty(&ev).unwrap());
+            1
+        },
+    };
+    let _ = std::fs::remove_file(&slots);
+    let _ = hex(&[]);
+    code.max(sweep_code)
+}
+
+pub fn run_sites_in_this_process(tier: Tier, replay: Option<String>) -> i32 {
+    let env_n = |k: &str| std::env::var(k).ok().and_then(|v| v.parse::<u64>().ok()).unwrap_or(0);
+    let (hc, hr, hv) = (env_n("C17_HOSTILE_CASES"), env_n("C17_HOSTILE_RUN"), env_n("C17_HOSTILE_VIOLATIONS"));
+    super::run_e1("C17", tier, "fault_enumeration", replay, sites(tier),
         "generated files (all count combinations 0..=2, 3 payload patterns, 4 track names) + shipped files; every truncation point; every single-byte substitution of files < 200 B; every count field x 7 hostile values (child process under RLIMIT_AS); non-trivial = cases whose outcome was judged against an expectation",
         vec![
             "allocation bound: peak bytes allocated during a parse <= 64 x input length + 64 kB (counting allocator, per thread)".into(),
             "for the 926 kB shipped SMX file truncation points are exhaustive only in the first and last 4096 bytes (prefix parsing is quadratic); generated files and AS1.pth are exhaustive".into(),
+            "both sweeps run in child processes: a process killed by an allocation failure is attributed to the case in flight".into(),
         ],
-        move |acc, extra| {
-            let _ = extra.insert("hostile_count_cases".into(), json!(total_hostile));
-            let _ = extra.insert("hostile_count_cases_run_in_child".into(), json!(hostile_evals));
-            let _ = acc;
+        move |_acc, extra| {
+            let _ = extra.insert("hostile_count_cases".into(), json!(hc));
+            let _ = extra.insert("hostile_count_cases_run_in_child".into(), json!(hr));
+            let _ = extra.insert("hostile_count_violation_signatures".into(), json!(hv));
         })
-        .max({
-            // merge the child's verdicts: printed here because they are produced outside the site machinery
-            let mut code = 0;
-            let known = std::fs::read_to_string("/verif/known_findings.json").unwrap_or_default();
-            let _ = std::fs::create_dir_all("/verif/replays/C17");
-            let mut seen = std::collections::BTreeSet::new();
-            let mut all = hostile.clone();
-            if let Some(c) = died {
-                let (f, off, v) = &cases[c as usize];
-                all.push((c, format!("C17|{}|process-died|hostile-count", if f.smx { "SMX" } else { "PTH" }), format!("{} with the count at offset {off} set to {v}: the process died (allocation failure / abort)", f.name)));
-            }
-            for (idx, sig, detail) in all {
-                if !seen.insert(sig.clone()) { continue; }
-                let path = format!("/verif/replays/C17/hostile-{idx}.json");
-                let _ = std::fs::write(&path, json!({"property": "C17", "site": "hostile-count", "index": idx, "signature": sig, "detail": detail}).to_string());
-                if known.contains(&format!("\"{sig}\"")) {
-                    println!("KNOWN-FINDING: property=C17 [{sig}] {detail}");
-                } else {
-                    println!("VIOLATION property=C17 replay={path}");
-                    println!("  signature: {sig}");
-                    println!("  witness:   {detail}");
-                    code = 1;
-                }
-            }
-            let _ = hex(&[]);
-            code
-        })
+}
+
+pub fn child_one(tier: Tier, rest: &[String]) -> i32 {
+    let (Some(name), Some(idx)) = (rest.first(), rest.get(1).and_then(|x| x.parse::<u64>().ok())) else { return 2 };
+    let s = sites(tier);
+    let Some(site) = s.iter().find(|x| &x.name == name) else { return 2 };
+    let mut acc = crate::report::Acc::new();
+    (site.run)(idx, &mut acc);
+    if acc.viol.is_empty() { 0 } else { 1 }
 }
